@@ -16,6 +16,7 @@ from functools import cmp_to_key
 
 from ufl.argument import Argument
 from ufl.coefficient import Coefficient
+from ufl.constant import Constant
 from ufl.core.multiindex import FixedIndex, MultiIndex
 from ufl.variable import Label
 
@@ -83,6 +84,21 @@ def _cmp_coefficient(a, b):
         return 0
 
 
+def _cmp_constant(a, b):
+    """Cmp constant."""
+    # Compare relative counts numerically, as for Coefficients.  Falling
+    # back to repr() compares the count as a decimal string ("10" < "9"),
+    # which makes the operand order, and hence the form signature, depend
+    # on how many Constants were created before.
+    x, y = a._count, b._count
+    if x < y:
+        return -1
+    elif x > y:
+        return 1
+    else:
+        return 0
+
+
 def _cmp_argument(a, b):
     """Cmp argument."""
     # It's ok to compare relative number and part for Arguments,
@@ -110,6 +126,7 @@ _terminal_cmps = {}
 _terminal_cmps[MultiIndex._ufl_typecode_] = _cmp_multi_index
 _terminal_cmps[Argument._ufl_typecode_] = _cmp_argument
 _terminal_cmps[Coefficient._ufl_typecode_] = _cmp_coefficient
+_terminal_cmps[Constant._ufl_typecode_] = _cmp_constant
 _terminal_cmps[Label._ufl_typecode_] = _cmp_label
 
 
